@@ -57,6 +57,19 @@ func WithObjectHeaderBinary(b []byte) Option {
 	}
 }
 
+// WithRequestXHeaders sets request whose X-headers are used when the message
+// itself does not carry them (see [WithObjectHeaderBinary]). Does nothing if
+// req is not a [Request].
+func WithRequestXHeaders(req any) Option {
+	return func(c *cfg) {
+		if r, ok := req.(Request); ok {
+			c.xHeaders = requestXHeaderSource{
+				req: r,
+			}
+		}
+	}
+}
+
 func WithCID(v cid.ID) Option {
 	return func(c *cfg) {
 		c.cnr = v
